@@ -467,4 +467,28 @@ func evatraKernelStage(c *vh.Ctx, n int) {
 	}
 	saved := kept
 	c.Correspond("evatra.part", cases, impl, 1e-9, 1e-12, func(i int) interface{} { return saved[i] })
+	// the same cases in 8 goroutines at once (the dispatcher runs several simulations concurrently)
+	nc := len(saved)
+	if nc > 600 {
+		nc = 600
+	}
+	concurrentKernelStage(c, "evatra", impl[:nc], 8, 2, func(i int) string {
+		ec := saved[i]
+		_, o, pan := runEvatraImpl(&ec)
+		if pan != "" {
+			return "panic " + pan
+		}
+		return o.line()
+	}, func(i int, got string) {
+		if i < 0 {
+			c.Violate("search", "evatra-kernel:concurrent:panic", "hermes.Evatra panics when several simulations run at the same time: "+got, nil)
+			return
+		}
+		ec := saved[i]
+		v0, o, _ := runEvatraImpl(&ec) // sequential again: must be the known answer
+		if o.line() != impl[i] {
+			return // not a function of its arguments even sequentially: reported by the correspondence
+		}
+		c.Violate("search", "evatra-kernel:concurrent:differs-from-sequential", fmt.Sprintf("hermes.Evatra on its own state gives another answer when other simulations call it at the same time (state shared between runs): sequential %.60s…, concurrent %.60s… (potential ET of the case %g)", impl[i], got, v0), ec)
+	})
 }
